@@ -35,6 +35,7 @@ def clause1_own(ctx, P, cg, own):
     attached = {}
     doubles = {}
     unchecked = {}
+    uars = {}
     sites = {}
     for f in P.own_functions():
         if f.srcname in SKIP_FUNCS:
@@ -72,6 +73,8 @@ def clause1_own(ctx, P, cg, own):
                     doubles[k] = x
                 if x.kind == "unchecked-consume" and k not in unchecked:
                     unchecked[k] = x
+                if x.kind == "use-after-release" and k not in uars:
+                    uars[k] = x
     for k, (f, i) in sorted(sites.items()):
         bad = leaks.get(k)
         kind = own.producer_kind(f, i)
@@ -88,6 +91,8 @@ def clause1_own(ctx, P, cg, own):
         ctx.ob("C07.1 R-OWN", x.f, "double-release:" + k[1], False, x.what, witness=x.view.witness())
     for k, x in sorted(unchecked.items()):
         ctx.ob("C07.1 R-OWN", x.f, "unchecked-consume:" + k[1], False, x.what, witness=x.view.witness())
+    for k, x in sorted(uars.items()):
+        ctx.ob("C07.1 R-OWN", x.f, "use-after-release:" + k[1], False, x.what, witness=x.view.witness())
     ctx.count("acquire_sites", len(sites))
     if len(sites) < 60:
         raise AnalysisBroken("acquire sites found: %d (expected >= 60)" % len(sites))
@@ -208,6 +213,62 @@ def clause2_timers(ctx, P, cg):
                "close() are applied to whatever the uninitialised memory holds - a descriptor the request does not own" %
                (f.srcname, bad[1].loc if bad else ""), witness=bad[0].witness() if bad else None)
     c03.clause2_siblings(ctx, P, cg)
+
+
+def clause13_freed_field_is_reassigned(ctx, P):
+    """a setter that releases what a member points to gives the member a new value on EVERY path that follows (the new object, or
+    NULL): in a function that both frees X->m and stores to X->m, no path leaves with the member still holding the freed pointer -
+    the next reader (a log line naming the peer) or the destructor (a second free) would use it"""
+    n = 0
+    bad = None
+    for f in P.own_functions():
+        frees = []
+        for c in f.calls(("cjet_free", "free", "cJSON_Delete")):
+            t = P.term(f, c.a[0])
+            if t[0] == "load" and t[1][0] == "field" and t[1][1][0] == "param":
+                frees.append((c, t[1]))
+        if not frees:
+            continue
+        for (c, fld) in frees:
+            stores = [i for i in f.all_insts() if i.op == "store" and P.term(f, i.a[1]) == fld]
+            if not stores:
+                continue      # a destructor: the object itself goes away, or the caller clears
+            n += 1
+            for v in Q.path_views(ctx, P, f):
+                pos = [k for k, i in v.insts() if i.id == c.id]
+                if not pos:
+                    continue
+                rc = v.ret_const()
+                if rc is not None and rc < 0:
+                    continue      # a failing initialiser unwinds its members; its caller releases the object (C15.2)
+                if not any(k > pos[0] and i.op == "store" and P.term(f, i.a[1]) == fld for k, i in v.insts()):
+                    bad = bad or (f, c, fld, v)
+    ctx.ob("C07.1 R-OWN", "own-code", "freed-member-is-reassigned", bad is None and n >= 1,
+           ("%s() frees %s at %s and leaves on a path that does not give the member a new value: it keeps pointing at the freed block "
+            "(read by the next log line for that object, freed again by its destructor)" %
+            (bad[0].srcname, fmt_term(("load", bad[2])), bad[1].loc)) if bad else "%d setter(s) reassign the member after freeing it" % n,
+           witness=bad[3].witness() if bad else None)
+
+
+def clause14_torn_down_means_zero(ctx, P):
+    """the first-run entries of the buffered socket report -1 only for 'could not be set up, the caller still owns everything' (the
+    accept handlers then free the socket object and close the descriptor).  Once the error callback has run, everything is gone
+    already: every path of buffered_socket_read_exactly() / buffered_socket_read_until() that calls the error function returns 0"""
+    n = 0
+    for key in ("buffered_socket.c:buffered_socket_read_exactly", "buffered_socket.c:buffered_socket_read_until"):
+        f = P.fn(key)
+        bad = None
+        for v in Q.path_views(ctx, P, f):
+            if any(True for _ in v.calls("error_function")):
+                n += 1
+                if v.ret_const() != 0:
+                    bad = v
+        ctx.ob("C07.4 R-RET", f, "after-the-error-callback-nothing-is-left-to-the-caller", bad is None,
+               "%s() returns %s on a path on which the error callback has already released the connection: the accept handler treats a "
+               "negative result as 'clean up yourself' and frees / closes a second time" % (f.srcname, bad.ret_const() if bad else "?"),
+               witness=bad.witness() if bad else None)
+    if n < 2:
+        raise AnalysisBroken("first-run error paths of the buffered socket: %d" % n)
 
 
 def clause12_registered_for_shutdown(ctx, P, cg):
@@ -704,3 +765,5 @@ def run(ctx):
         clause10_failure_exits_agree(ctx, P, cg, own)
         clause11_descriptors_closed_once(ctx, P, cg)
         clause12_registered_for_shutdown(ctx, P, cg)
+        clause13_freed_field_is_reassigned(ctx, P)
+        clause14_torn_down_means_zero(ctx, P)
